@@ -96,6 +96,64 @@ def paramsdict_routing(group):
     return EqObligation(f"C06/_set_derivatives/ensures.ParamsDict[group={group}]", build, [DK + "_set_derivatives"])
 
 
+def system_routing(kind, masks, group):
+    """per-unknown derivative keys of a system loss: masks[(unknown, term)] -> bool (network parameters of that unknown)"""
+    from contracts.c13 import Sys
+    from jinns.parameters import DerivativeKeysODE, DerivativeKeysPDENonStatio
+    cterms = ["initial_condition", "observations"] if kind == "ODE" else ["initial_condition", "observations", "boundary_loss"]
+    def build():
+        S = Sys(kind, 2, 2)
+        names = S.names()
+        gi = S.uk.index(group)
+        def dk(u):
+            def tree(flag):
+                return Params(nn_params=flag, eq_params={"a": False})
+            kw = {t: tree(masks[(u, t)]) for t in cterms}
+            kw["dyn_loss"] = tree(True)
+            if kind != "ODE":
+                kw["norm_loss"] = tree(True)
+                return DerivativeKeysPDENonStatio(**kw)
+            return DerivativeKeysODE(**kw)
+        def fn(*args):
+            a0 = dict(zip(names, args))
+            def total(th_u):
+                a = dict(a0)
+                a["th"] = a0["th"].at[gi].set(th_u)
+                loss, pd, batch = S._build(a, {}, tuple(S.uk), tuple(S.uk), tuple(S.uk) if kind != "ODE" else (),
+                                           derivative_keys_dict={u: dk(u) for u in S.uk})
+                loss = S.symbolic_weights(loss, a)
+                return loss.evaluate(pd, batch)[0]
+            return jax.grad(total)(a0["th"][gi])
+        def spec(*args, wrong=False):
+            s_ = dict(zip(names, args))
+            var = s_["th"][gi, 0]
+            on = tuple(S.uk)
+            full = S.spec(s_, {}, on, on, on if kind != "ODE" else ())
+            tot = P.diff(full["dyn_loss"], var)
+            for t in cterms:
+                # contribution of unknown `group` only (the other unknown's terms do not depend on this theta)
+                m = masks[(group if not wrong else [u for u in S.uk if u != group][0], t)]
+                if m:
+                    tot = tot + P.diff(full[t], var)
+            return arr(lambda _: tot, (1,))
+        return dict(fn=fn, spec=spec, canary=None, inputs=S.inputs(), timeout_ms=20000)
+    mdesc = ",".join(f"{u}.{t[:3]}={int(v)}" for (u, t), v in sorted(masks.items()))
+    mod = "jinns.loss._LossODE:SystemLossODE" if kind == "ODE" else "jinns.loss._LossPDE:SystemLossPDE"
+    return EqObligation(f"C06/{mod.split(':')[1]}/ensures.per_unknown_gradient_routing[{kind},d/dtheta_{group},{mdesc}]", build,
+                        [mod + ".__post_init__", mod + ".evaluate", DK + "_set_derivatives"])
+
+
+def system_mask_sets(kind, tier):
+    cterms = ["initial_condition", "observations"] if kind == "ODE" else ["initial_condition", "observations", "boundary_loss"]
+    keys = [(u, t) for u in ("u", "v") for t in cterms]
+    allsets = [dict(zip(keys, bits)) for bits in itertools.product((False, True), repeat=len(keys))]
+    if tier == "thorough":
+        return allsets
+    # quick: assignments in which the two unknowns differ on every term, plus the extremes
+    pick = [m for m in allsets if all(m[("u", t)] != m[("v", t)] for t in cterms)]
+    return pick[:4] + [allsets[0], allsets[-1]]
+
+
 # ---- mask construction: pure Python over concrete structures; exhaustive up to 3 keys => bounded stand-in
 def mask_builders(seed):
     from jinns.parameters import (DerivativeKeysODE, DerivativeKeysPDEStatio, DerivativeKeysPDENonStatio)
@@ -158,6 +216,10 @@ def obligations(tier):
         obs.append(value_independence(kind))
     for g in ("t1", "t2", "a"):
         obs.append(paramsdict_routing(g))
+    for kind in ("ODE", "nonstatio"):
+        for m in system_mask_sets(kind, tier):
+            for g in ("u", "v"):
+                obs.append(system_routing(kind, m, g))
     obs.append(FnObligation("C06/mask_builders/bounded.exhaustive_key_sets_0..3", mask_builders,
                             [DK + "_get_masked_parameters", DK + "DerivativeKeysODE.from_str",
                              DK + "DerivativeKeysPDEStatio.from_str", DK + "DerivativeKeysPDENonStatio.from_str"]))
